@@ -235,7 +235,21 @@ class Session(object):
         cbk = kw.pop('cb', None)
         if cbk:
             kw['progress_callback'] = self._callback(cbk)
-        if dest == 'bytesio':
+        if isinstance(dest, str) and dest.startswith('failsink:'):
+            limit = int(dest.split(':')[1])
+
+            class FailingSink(io.BytesIO):
+                calls = 0
+
+                def write(self, data):
+                    FailingSink.calls += 1
+                    if FailingSink.calls > limit:
+                        raise IOError('disk full')
+                    return io.BytesIO.write(self, data)
+            bio = FailingSink()
+            r = self.run(lambda d: d.pull(device_path, bio, **kw))
+            self.pulled = bio.getvalue()
+        elif dest == 'bytesio':
             bio = io.BytesIO()
             r = self.run(lambda d: d.pull(device_path, bio, **kw))
             self.pulled = bio.getvalue()
